@@ -22,6 +22,20 @@ def diagnose(chk, case):
     """evaluate the conjuncts of check_tree separately on each strategy's outcome"""
     import re
     coq = case.get("coq", "")
+    if case.get("op") in ("merge_models", "reorder", "idx2coord", "cg_post"):
+        mm = re.match(r"^\(maxl \[(.*)\]\)?(%nat\))?$", coq, re.S)
+        body = coq[len("(maxl ["):coq.rindex("]")]
+        parts = re.split(r"; (?=c17_)", body)
+        vals = chk.coq_show(HEADER, ["(%s)%%nat" % x if case.get("op") != "idx2coord" else x for x in parts])
+        names = {"41": "parent-child merge decisions / final state differ from MergePC", "42": "clique-graph merge decisions / final cliques differ from MergeCG",
+                 "43": "no-merge premises (wf_b, filled_b, ps_ok) or separators fail on the implementation's output", "44": "factor pattern differs from SymbolicFill.factor_pattern",
+                 "45": "supernodes / supernode parents differ from PothenSun", "46": "edges taken by kruskal differ from Kruskal model", "47": "parents / split differ from SplitCliques model"}
+        out = []
+        for x, v in zip(parts, vals):
+            if "= 0" not in v:
+                code = re.search(r"= (\d+)", v)
+                out.append({"tie": x.split()[0], "code": v, "meaning": names.get(code.group(1) if code else "", "")})
+        return out[:6]
     m = re.match(r"^\(let p := (.*?) in maxl \[(.*)\]\)$", coq, re.S)
     if not m:
         return None
@@ -162,6 +176,9 @@ SPEC = {
     "post": post,
     "what": "a tree produced by the implementation's chordal analysis is rejected by the proved checker check_tree (or the analysis crashed / hung / left a non-dense multi-clique pattern undecomposed)",
     "rule": "cases = (sparsity pattern, the three merge strategies) : every labelled graph on 1..5 vertices evaluated inside Coq; all 2^15 labelled graphs on 6 vertices (quick and thorough) and all 2^21 on 7 vertices (thorough) through the same checker extracted to OCaml, rejections replayed inside Coq, random banded / arrow / block-diagonal / disconnected / clique-tree chordal (deep, star) / Erdos-Renyi / cycle / grid patterns up to 300 vertices, presentation variants (diagonal absent, entries in b), plus union-find operation sequences; non-trivial = at least one off-diagonal entry (resp. one union); distinct = distinct input JSON",
+    # code 2 is reserved for the two ties whose result is genuinely unspecified by the property: ANY
+    # valid post-order and ANY numbering inside a supernode are acceptable (c17_postorder, c17_reorder)
+    "structure_code": 2,
     "level": "translation_validation",
     "explanation": "Every clique tree the implementation returns (through ChordalInfo::new, the solver's own path) is checked inside Coq by check_tree, proved sound w.r.t. ValidTree (ordering permutation, consecutive supernode partition, coverage of every structural nonzero, parent later in post-order, separator = clique /\\ parent clique, running intersection, nblk). Undecomposed patterns must be dense or single-clique. The union-find, post_order and triangular index maps are proved correct as components; the merge strategies themselves are validated, not proved.",
     "assumptions": ["the universal claim for the merge strategies is established only on the explored patterns (exhaustive bound stated in the rule)",
